@@ -26,12 +26,47 @@ def setup():
     _sat = mod("solvor.sat")
 
 
+def _cp_cnf(rng):
+    from vf.gen import cpgen
+    from vf.instrument import mod
+    from vf.oracles import cp as ocp
+
+    try:
+        cpm = mod("solvor.cp")
+        encm = mod("solvor.cp_encoder")
+        for _ in range(10):
+            spec = cpgen.gen_spec(rng.choice(["mixed", "global", "sums", "supported", "planted-unique"]), rng)
+            try:
+                model, xs, built = ocp.build(spec, cpm.Model)
+            except ocp.Unbuildable:
+                continue
+            enc = encm.SATEncoder(model)
+            enc._clauses = []
+            enc._encode_vars()
+            for c in model._constraints:
+                enc._encode_constraint(c)
+            clauses = [list(c) for c in enc._clauses]
+            if clauses and all(len(c) > 0 for c in clauses) and len({abs(l) for c in clauses for l in c}) <= 120:
+                return clauses
+    except Exception:
+        pass
+    return cnf.threshold(rng)
+
+
 def gen(stratum, rng, tier):
     """case = {clauses, calls: [kw...], known: True/False/None, budget}"""
     known = None
     budget = BUDGET_SMALL
     if stratum == "suite":
         return {"suite": SUITE_FILES}
+    if stratum == "cp-cnf":
+        # CNFs produced by the real CP encoder from random CP models (exactly-one groups, channeling, MTZ ...)
+        clauses = _cp_cnf(rng)
+        calls = [{}, {"solution_limit": rng.choice([2, 5, 50]), "luby_factor": rng.choice([1, 2, 100])},
+                 {"luby_factor": rng.choice([1, 2, 5])}]
+        if rng.random() < 0.5:
+            calls.append({"assumptions": cnf.with_assumptions(rng, clauses, 2)})
+        return {"clauses": clauses, "calls": calls, "known": None, "budget": BUDGET_MID}
     if stratum == "tiny":
         clauses = cnf.tiny(rng)
         calls = [{}]
